@@ -21,8 +21,7 @@ def handle (op : String) (args : List String) : Option String :=
   | "o.c29.abs", [n, "|", r] => do
     let n ← parseInt n
     let r ← resOfString r
-    pure (verdict (C29.specAbs n r)
-      (if C29.D_min_negate n && r == .panic then "abs:D_min_negate" else "abs:-"))
+    pure (verdict (C29.specAbs n r) "abs:-")
   | "o.c29.mod", [a, b, "|", r] => do
     let a ← parseInt a
     let b ← parseInt b
